@@ -232,7 +232,13 @@ class Gen:
             return "(%s %s %s)" % (paren(self.expr(t, env, d - 1)), op, paren(self.expr(t, env, d - 1)))
         if x < 0.55:
             op = r.choice(["&&", "||"])
-            return "(%s %s %s)" % (paren(self.expr("bool", env, d - 1)), op, paren(self.expr("bool", env, d - 1)))
+            rhs = paren(self.expr("bool", env, d - 1))
+            muts = [(n, t) for (n, t, m) in env if m and (t == "bool" or is_int(t))]
+            if muts and r.random() < 0.3:
+                # a short-circuited operand with an effect: the assignment must only be visible when it is evaluated
+                mn, mt = r.choice(muts)
+                rhs = "({ %s = %s; %s })" % (mn, self.expr(mt, env, 1), self.expr("bool", env, max(0, d - 1)))
+            return "(%s %s %s)" % (paren(self.expr("bool", env, d - 1)), op, rhs)
         if x < 0.65:
             op = r.choice(["&", "|", "^", "==", "!="])
             return "(%s %s %s)" % (paren(self.expr("bool", env, d - 1)), op, paren(self.expr("bool", env, d - 1)))
